@@ -31,7 +31,7 @@ def _cases(tier, rng):
             yield {'kind': 'mux', 'term': [['group_by', ['mod', 2], [['split', ['nan_if_mod', 3, 0], inner]]]], 'items': items, 'no_model': True}
     # predicate values compared by identity (instances of a class without __eq__) and equal values of different types
     # (1 == 1.0 == True): "differs by !=" — outside the model's value domain, judged by the oracle on the real code only
-    for pred in (['obj_of', 2], ['obj_of', 3], ['mixed_eq', 2], ['mixed_eq', 4], ['neint_of', 2], ['neint_of', 3]):
+    for pred in (['obj_of', 2], ['obj_of', 3], ['mixed_eq', 2], ['mixed_eq', 4], ['neint_of', 2], ['neint_of', 3], ['list_of', 2], ['list_of', 3]):
         for items in ([0, 1, 2, 3, 4, 5, 6, 7], [1, 1, 2, 3, 3, 8, 9, 4], [5], [0, 1, 4, 5, 2, 3, 6, 7, 7, 6], list(range(12))):
             for inner in ([['to_list']], [['count', True]]):
                 yield {'kind': 'mux', 'term': [['split', pred, inner]], 'items': items, 'no_model': True}
@@ -99,6 +99,12 @@ def absent_violation(case, r):
     rest = [x for x in case['items'] if x % k != rr]
     r2 = muxprop.real(dict(case, items=rest))
     a, b = muxprop.outs(r['chunks']), muxprop.outs(r2['chunks'])
+    if any(st[0] == 'group_by' for st in muxgen.walk(case['term'])):
+        # a failing item still opens its group (group_by sees it before the stage that raises), so the order in which the groups
+        # complete can differ from the run without it: the outputs are compared as multisets there
+        a, b = sorted(a, key=muxprop.json.dumps), sorted(b, key=muxprop.json.dumps)
+    if not case['term']:
+        return None
     if muxprop.strict_ne(a, b):
         return ('%s over %s emits %s; over the same items without the failing ones (%s) it emits %s — an ignored mux error must leave '
                 'the segmentation of the key as if the item were absent' % (muxprop.json.dumps(case['term'])[:200], case['items'], str(a)[:250], rest, str(b)[:250]))
